@@ -124,7 +124,7 @@ static inline std::vector<ImmSp> imm_spellings(int w, char policy, hz::Rng &rng,
         if (hex && many_spellings && !isneg) { ImmSp p = s; p.pad = (w == 64 ? 16 : w / 4); std::string k2 = numtext(p.v, p.neg, p.hex, p.pad); if (seen.insert(k2).second) out.push_back(p); }
         // leading zeros: decimal stays decimal ("010" is ten), signed spellings too
         // more than 16 hex digits (leading zeros), both signs: only where no mode gives the digit count a meaning (everything but mov r64, imm)
-        if (hex && !(policy == 'M' && w == 64) && rng.below(many_spellings ? 3 : 12) == 0) { ImmSp p = s; p.pad = 17 + (int)rng.below(4); std::string k2 = numtext(p.v, p.neg, p.hex, p.pad); if (seen.insert(k2).second) out.push_back(p); }
+        if (hex && !(policy == 'M' && w == 64) && rng.below(many_spellings ? 3 : 12) == 0) { ImmSp p = s; static const int LP[] = {17, 18, 19, 20, 40, 62, 63, 64, 65, 70}; p.pad = LP[rng.below(10)]; /* up to what fits a 99-character line behind a short instruction */ std::string k2 = numtext(p.v, p.neg, p.hex, p.pad); if (seen.insert(k2).second) out.push_back(p); }
         if ((many_spellings && (!hex || isneg)) || (!many_spellings && rng.below(4) == 0)) { ImmSp p = s; uint64_t mag = isneg ? (uint64_t)(0 - pattern) : pattern; p.pad = pad_for(mag, p.hex, rng); if (p.hex && p.pad > 15) p.pad = 15; std::string k2 = numtext(p.v, p.neg, p.hex, p.pad); if (seen.insert(k2).second) out.push_back(p); }
       }
     }
